@@ -9,7 +9,8 @@ RULE = ("(i) NUMFMT/NUMPARSE/FMOD: the model's exact printer, parser and remaind
         "every position of the point, random literals to 17+ digits with leading/trailing zeros: token bits against the "
         "model and against Python's correctly rounded float(); (iii) programs that print a literal or an arithmetic "
         "result, convert with _স্ট্রিং / _সংখ্যা and compare: output against the model and against repr-based shortest digits. "
-        "Non-trivial: the literal has a fractional part, a leading zero, a sign or more than 15 digits.")
+        "Non-trivial: the literal has a fractional part, a leading zero, a sign or more than 15 digits."
+        ' Shared name-collision family (props/collisions.py): 24 scenarios in which one name is bound more than once, x 2 layouts.')
 ASSUMPTIONS = ["Rust's f64 Display/FromStr contracts (shortest round-trip plain decimal; correctly rounded) are validated by (i), not proved",
                "hardware IEEE-754 arithmetic is the same for Lean's Float and Rust's f64"]
 default_compare = C.compare_exact
@@ -223,4 +224,10 @@ def cases(rng, tier, stats):
         out.append(C.Case("arith-print", [run(prog)], lambda m, i: C.compare_run(m, i, line=True), print_oracle,
                           info={"src": prog, "want": G.bn_digits(plain(v)) + "\n"}))
     stats["programs"] = nprog
+    # one name in two roles (props/collisions.py): shadowed functions, parameters named like globals / built-ins / their own function,
+    # bare conditions, indexed and plain writes, re-declarations — every use of a name resolves to its innermost binding
+    from props import collisions
+    nc_ = collisions.family()
+    out += nc_
+    stats["name_collision_programs"] = len(nc_)
     return out
